@@ -73,6 +73,7 @@ def parse_case(idx: int) -> bool:
     pre: LO <= idx < HI
     post: _
     """
+    xs.path_start()
     idx = xs.pick(idx, LO, HI)
     with xs.nt():
         text = cases()[idx]
